@@ -36,7 +36,7 @@ fn locator_path(loc: &Locator) -> Result<PathBuf, Error> {
 impl FileSystem for DefaultFileSystem {
     fn is_valid(&self, loc: &Locator) -> bool {
         match locator_path(loc) {
-            Ok(p) => p.exists(),
+            Ok(p) => p.is_file(),
             Err(_) => false,
         }
     }
